@@ -97,6 +97,9 @@ func principal(i int) audit.Principal {
 // canonPrincipal is a short stable identifier of the full principal (all four
 // fields): the first 6 bytes of the SHA-256 of its canonical JSON.
 func canonPrincipal(p audit.Principal) string {
+	if principalStructured {
+		return structuredPrincipal(p)
+	}
 	bs, _ := json.Marshal(p)
 	h := sha256.Sum256(bs)
 	return string(h[:6])
